@@ -11,7 +11,7 @@
    layout of ploidies >= 1 and, at the unmasked sites, one genotype per output column
    and at least one allele (what __init__ and ts.variants guarantee). *)
 From Coq Require Import List ZArith Bool.
-From TskVerif Require Import Base.Common C16.Model C16.Spec C16.TemplateProofs C16.BodyProofs
+From TskVerif Require Import Base.Common Gen.Generated C16.Model C16.Spec C16.TemplateProofs C16.BodyProofs
   C16.MappingProofs.
 Import ListNotations.
 Open Scope Z_scope.
@@ -29,6 +29,10 @@ Proof. exact vcf_lines_exact_fixed. Qed.
    or a wrong-length sample mask. *)
 Theorem vcf_body_is_spec : forall inp, wf_input inp -> vcf_body_fixed inp = spec_body inp.
 Proof. exact vcf_body_fixed_spec. Qed.
+
+(* "up to 9 alleles per site": the limit in VcfWriter.write (regenerated from /repo). *)
+Theorem allele_limit : c16_max_alleles = 9.
+Proof. exact allele_limit_is_nine. Qed.
 
 (* The code as it is equals the repaired one whenever site_mask is None or a numpy
    bool array — so both theorems above hold for the unchanged code on those forms. *)
